@@ -11,7 +11,34 @@ ENGINES = {
 PROPS = {
     "C01": dict(engine="A", runs=(6000, 200000), modes=[("nofault", 0.25), ("swarm", 0.75)], race=False,
                 level="exploration", design="§6 Engine A / C01",
+                level_text="Seeded exploration of simulated histories on the real balancer code: each run draws a weight vector and a history of reloads / availability flips / slow-start ramps (fake clock) and checks every sliding window of W selections of every stable epoch by counting. Evidence over the sampled seeds, not a proof.",
+                level_note="Trusted: simrt scheduler/tape, the harness's counting oracle, go1.26.8 synctest fake clock. The harness reads no balancer internals except the backend list (to flip availability).",
                 technique="deterministic simulation: seeded histories of selections, reloads, availability flips and clock advances on the real balancer; sliding-window share oracle; tape-shrunk replay"),
 }
 
-NOT_APPLICABLE = {}
+NOT_APPLICABLE = {
+    "C10": "pure function of (host table, VIP table, Host header): no goroutine, clock, stream, file or peer takes part; the only thing to vary is input, which is generation, not simulation (DESIGN §7)",
+    "C11": "basic-rule tree lookup is a pure function of (rule set, host, path); nothing to schedule or fault (DESIGN §7)",
+    "C12": "LookupCluster is a pure function of (rules, request); rule order is data, not a schedule (DESIGN §7)",
+    "C16": "expression evaluation/precedence is a pure function of the expression string and request (DESIGN §7)",
+    "C17": "condition parse/build is a pure function of the string; totality over inputs is fuzzing, not simulation (DESIGN §7)",
+    "C18": "primitive matching is a pure function of (pattern, request); no schedule/fault dimension (DESIGN §7)",
+    "C19": "IP dictionary membership after load is a pure function of (items, probe) (DESIGN §7)",
+    "C20": "single-owner in-memory set with no lock, I/O or clock; an operation sequence is just an input (DESIGN §7)",
+    "C43": "removePadding is a pure function of a byte slice (DESIGN §7)",
+    "C45": "handshake message marshal/unmarshal are pure functions of values/bytes (DESIGN §7)",
+    "C49": "rewrite/header/redirect actions are pure request transformations (DESIGN §7)",
+    "C50": "path-to-file mapping is a pure function of the path and a static tree; no fault or schedule in the statement (DESIGN §7)",
+    "C51": "credential/token/signature validation is a pure function of (request, rule, now) with now a plain argument (DESIGN §7)",
+    "C52": "CORS header computation is a pure function of (origin, rule, existing headers) (DESIGN §7)",
+    "C56": "DoH message conversion is a pure function of (request bytes, client address) (DESIGN §7)",
+}
+PLANNED = {
+    "C02": "A", "C03": "A", "C04": "A", "C05": "A", "C09": "A", "C06": "B", "C07": "C", "C08": "C", "C13": "I", "C14": "I", "C15": "C",
+    "C21": "H", "C22": "D", "C23": "D", "C24": "D", "C25": "C", "C26": "C", "C27": "C", "C28": "C", "C29": "C", "C30": "D", "C31": "D",
+    "C32": "D", "C33": "E", "C34": "E", "C35": "E", "C36": "E", "C37": "E", "C38": "E", "C39": "D", "C40": "F", "C41": "G", "C42": "G",
+    "C44": "G", "C46": "D", "C47": "C", "C48": "C", "C53": "H", "C54": "C", "C55": "D",
+}
+for _p, _e in PLANNED.items():
+    if _p not in PROPS:
+        NOT_APPLICABLE[_p] = "not claimed yet: simulation engine %s for this property is designed (DESIGN §6) but its check is not built; no verdict is offered" % _e
